@@ -6,8 +6,11 @@
 //     prometheus parseTimestamp) on boundary and random integers, compared value by value
 //     with the Coq model and with the documented unit ranges (oracle);
 //  2. logs end to end: the same generated logical events through the real handlers of
-//     ES bulk, Splunk HEC, Loki push (JSON), OTLP logs, OTLP traces; flush; match-all search;
-//     stored time and stored columns against the logical event (oracle) and the model;
+//     ES bulk, ES single-document requests (every route of ProcessPutPostSingleDocRequest), Splunk HEC,
+//     Loki push (JSON), OTLP logs, OTLP traces; flush; match-all search;
+//     stored time and stored columns against the logical event (oracle) and the model; the two ES
+//     protocols against each other; stream L: number literals in every spelling (64-bit integers,
+//     long decimals, large / small exponents) through every protocol that can express them;
 //  3. metrics end to end: logical datapoints through OpenTSDB put, Prometheus remote write
 //     and OTLP metrics; rotate; PromQL query path; stored series / time / value against the
 //     logical point (oracle) and the model.
@@ -103,37 +106,98 @@ func coqN(n uint64) string { return strconv.FormatUint(n, 10) }
 
 // a scalar value of a logical event
 type sv struct {
-	Kind string  `json:"kind"` // s i f b
+	Kind string  `json:"kind"` // s i f b | w: an integer outside int64 (decimal text in W)
 	S    string  `json:"s,omitempty"`
 	I    int64   `json:"i,omitempty"`
 	F    float64 `json:"f,omitempty"`
 	B    bool    `json:"b,omitempty"`
+	W    string  `json:"w,omitempty"`
+	// the number literal as it is written into JSON bodies (stream L: every spelling of a number);
+	// I / W / F hold the value the literal denotes (F: the nearest float64)
+	Lit string `json:"lit,omitempty"`
+}
+
+var two63f = math.Ldexp(1, 63)
+
+// the integer an integral float64 denotes, exactly
+func exactInt(f float64) string {
+	i, _ := new(big.Float).SetFloat64(f).Int(nil)
+	return i.String()
+}
+
+// canonical form of a number: an integral float64 is the integer it denotes (int64 when it fits)
+func (v sv) canonical() sv {
+	if v.Kind == "f" && v.F == math.Trunc(v.F) && !math.IsInf(v.F, 0) {
+		if math.Abs(v.F) < two63f {
+			return sv{Kind: "i", I: int64(v.F)}
+		}
+		return sv{Kind: "w", W: exactInt(v.F)}
+	}
+	v.Lit = ""
+	return v
+}
+
+// what the property demands of the stored value: an integer literal inside 64 bits (signed or unsigned) exactly;
+// a wider one as the nearest float64 (the widest number a column holds)
+func (v sv) expected() sv {
+	if v.Kind == "w" {
+		z, _ := new(big.Int).SetString(v.W, 10)
+		if z.Sign() < 0 || z.BitLen() > 64 {
+			f, _ := strconv.ParseFloat(v.W, 64)
+			return sv{Kind: "f", F: f}.canonical()
+		}
+	}
+	return v.canonical()
+}
+
+// the nearest float64 of an integer value, in canonical form
+func (v sv) viaFloat() sv {
+	switch v.Kind {
+	case "i":
+		return sv{Kind: "f", F: float64(v.I)}.canonical()
+	case "w":
+		f, _ := strconv.ParseFloat(v.W, 64)
+		return sv{Kind: "f", F: f}.canonical()
+	}
+	return v
 }
 
 func (v sv) coq() string {
+	v = v.canonical()
 	switch v.Kind {
 	case "s":
 		return "SStr " + coqS(v.S)
 	case "i":
 		return "SInt " + coqZ(v.I)
+	case "w":
+		if strings.HasPrefix(v.W, "-") {
+			return "SInt (" + v.W + ")%Z"
+		}
+		return "SInt " + v.W + "%Z"
 	case "f":
 		return "SFlt " + coqN(math.Float64bits(v.F))
 	}
 	return "SBool " + vhlib.CoqBool(v.B)
 }
 func (v sv) json() string {
+	if v.Lit != "" {
+		return v.Lit
+	}
 	switch v.Kind {
 	case "s":
 		b, _ := json.Marshal(v.S)
 		return string(b)
 	case "i":
 		return strconv.FormatInt(v.I, 10)
+	case "w":
+		return v.W
 	case "f":
 		return strconv.FormatFloat(v.F, 'f', -1, 64)
 	}
 	return strconv.FormatBool(v.B)
 }
 func (v sv) eq(w sv) bool {
+	v, w = v.canonical(), w.canonical()
 	if v.Kind != w.Kind {
 		return false
 	}
@@ -142,12 +206,24 @@ func (v sv) eq(w sv) bool {
 		return v.S == w.S
 	case "i":
 		return v.I == w.I
+	case "w":
+		return v.W == w.W
 	case "f":
 		return math.Float64bits(v.F) == math.Float64bits(w.F)
 	}
 	return v.B == w.B
 }
-func (v sv) String() string { return v.Kind + ":" + v.json() }
+func (v sv) String() string {
+	switch v.Kind {
+	case "i":
+		return "i:" + strconv.FormatInt(v.I, 10)
+	case "w":
+		return "w:" + v.W
+	case "f":
+		return "f:" + strconv.FormatFloat(v.F, 'g', -1, 64)
+	}
+	return v.Kind + ":" + v.json()
+}
 
 type kv struct {
 	K string `json:"k"`
@@ -161,20 +237,33 @@ func coqEvent(fs []kv) string {
 	}
 	return vhlib.CoqList(items)
 }
-func jsonObj(fs []kv) string {
-	var sb strings.Builder
-	sb.WriteByte('{')
-	for i, f := range fs {
-		if i > 0 {
-			sb.WriteByte(',')
+func jsonObj(fs []kv) string { return "{" + jsonMembers(fs) + "}" }
+
+// the members of a JSON object; the keys "ctx.<k>" (stream L) are written as ONE nested object "ctx":{"<k>":..}
+// at the position of the first of them (the store flattens it back to the dotted column name)
+func jsonMembers(fs []kv) string {
+	var parts []string
+	nested := false
+	for _, f := range fs {
+		if strings.HasPrefix(f.K, "ctx.") {
+			if nested {
+				continue
+			}
+			nested = true
+			var in []string
+			for _, g := range fs {
+				if strings.HasPrefix(g.K, "ctx.") {
+					kb, _ := json.Marshal(g.K[4:])
+					in = append(in, string(kb)+":"+g.V.json())
+				}
+			}
+			parts = append(parts, `"ctx":{`+strings.Join(in, ",")+"}")
+			continue
 		}
 		kb, _ := json.Marshal(f.K)
-		sb.Write(kb)
-		sb.WriteByte(':')
-		sb.WriteString(f.V.json())
+		parts = append(parts, string(kb)+":"+f.V.json())
 	}
-	sb.WriteByte('}')
-	return sb.String()
+	return strings.Join(parts, ",")
 }
 
 // canonical form of a value returned by the search path
@@ -190,14 +279,11 @@ func canon(x interface{}) (sv, bool) {
 		if t < 1<<63 {
 			return sv{Kind: "i", I: int64(t)}, true
 		}
-		return sv{Kind: "s", S: "uint64:" + strconv.FormatUint(t, 10)}, true
+		return sv{Kind: "w", W: strconv.FormatUint(t, 10)}, true
 	case int:
 		return sv{Kind: "i", I: int64(t)}, true
 	case float64:
-		if t == math.Trunc(t) && math.Abs(t) < 9.2e18 {
-			return sv{Kind: "i", I: int64(t)}, true
-		}
-		return sv{Kind: "f", F: t}, true
+		return sv{Kind: "f", F: t}.canonical(), true
 	case json.Number:
 		if i, err := t.Int64(); err == nil {
 			return sv{Kind: "i", I: i}, true
@@ -241,10 +327,12 @@ type stored struct {
 	fields map[string]sv
 }
 
-func search(index string) ([]stored, error) {
+func search(index string) ([]stored, error) { return searchQ(index, "*") }
+
+func searchQ(index, text string) ([]stored, error) {
 	qid++
 	req := map[string]interface{}{
-		"searchText": "*", "indexName": index, "startEpoch": uint64(1), "endEpoch": ^uint64(0),
+		"searchText": text, "indexName": index, "startEpoch": uint64(1), "endEpoch": ^uint64(0),
 		"size": uint64(10000), "queryLanguage": "Splunk QL", "includeNulls": true,
 	}
 	resp, _, _, err := pipesearch.ParseAndExecutePipeRequest(req, qid, 0, time.Now(), "", nil)
@@ -633,10 +721,15 @@ func checkStored(sum *vhlib.Summary, proto string, cid string, ex expect, o logO
 		}
 		if !got.eq(want) {
 			cl := proto + "_field_altered"
-			if proto == "hec" && want.Kind == "i" && got.Kind == "i" && (want.I >= two53 || want.I <= -two53) {
-				if v, ok := viaFloatText(want.I); ok && got.I == int64(v) {
-					cl = "hec_int_via_float64"
+			// an integer literal that went through a float64 (decoded into interface{} without UseNumber): the
+			// nearest float64, or the integer its shortest decimal text denotes
+			if want.Kind == "i" && (want.I >= two53 || want.I <= -two53) {
+				if v, ok := viaFloatText(want.I); ok && got.Kind == "i" && got.I == int64(v) || got.eq(want.viaFloat()) {
+					cl = proto + "_int_via_float64"
 				}
+			} else if want.Kind == "w" && got.eq(want.viaFloat()) {
+				// an integer literal in [2^63, 2^64): the JSON reader of the segment writer knows int64 and float64 only
+				cl = "uint64_beyond_int64_stored_as_float64"
 			}
 			fail(sum, cl, fmt.Sprintf("%s: event %s: column %q sent as %v, stored as %v", proto, cid, k, want, got), c)
 		}
@@ -736,8 +829,40 @@ func (t timeRep) coqWire() string {
 	return "(WStr " + coqS(coqN(t.Val)) + ")"
 }
 
-func runES(sum *vhlib.Summary, evs []levent, cases *[]string) {
-	const ix = "c16es"
+// the document of an event as it is written into ES bulk bodies and single-document requests
+func esDoc(e levent) string {
+	doc := "{" + e.Time.esJSON() + `"cid":"` + e.Cid + `","message":` + sv{Kind: "s", S: e.Msg}.json()
+	if len(e.Attrs) > 0 {
+		doc += "," + jsonMembers(e.Attrs)
+	}
+	return doc + "}"
+}
+
+// what an ES document must be stored as (both ES protocols): every field as sent, the time it carries
+func esExpect(sum *vhlib.Summary, proto string, e levent) expect {
+	ex := expect{cols: map[string]sv{"cid": {Kind: "s", S: e.Cid}, "message": {Kind: "s", S: e.Msg}}, exact: true}
+	for _, a := range e.Attrs {
+		ex.cols[a.K] = a.V.expected()
+	}
+	if t, ok := e.Time.supported(); ok {
+		ex.carried = t
+		if e.Time.spelled() {
+			if _, cut, _ := e.Time.denoted(); cut != t {
+				ex.altTime, ex.altClass = cut, "ts_fractional_seconds_truncated"
+			}
+		}
+	} else if e.Time.Unit != "none" {
+		// a representation outside the documented ranges: only content is judged, the time goes to the model
+		ex.skipTime = true
+		sum.Count(proto + "/unsupported_time_representation")
+	}
+	return ex
+}
+
+// what ES bulk stored for an event (by case id): the single-document protocol must store the same
+var bulkStored = map[string]stored{}
+
+func runES(sum *vhlib.Summary, evs []levent, cases *[]string, ix string) {
 	wins := make([]window, len(evs))
 	for b := 0; b < len(evs); b += batch {
 		var sb strings.Builder
@@ -746,13 +871,7 @@ func runES(sum *vhlib.Summary, evs []levent, cases *[]string) {
 			end = len(evs)
 		}
 		for _, e := range evs[b:end] {
-			doc := "{" + e.Time.esJSON() + `"cid":"` + e.Cid + `","message":` + sv{Kind: "s", S: e.Msg}.json()
-			for _, a := range e.Attrs {
-				kb, _ := json.Marshal(a.K)
-				doc += "," + string(kb) + ":" + a.V.json()
-			}
-			doc += "}"
-			sb.WriteString(`{"index":{"_index":"` + ix + `"}}` + "\n" + doc + "\n")
+			sb.WriteString(`{"index":{"_index":"` + ix + `"}}` + "\n" + esDoc(e) + "\n")
 		}
 		lo := nowMs() - 1
 		n, resp, err := eswriter.HandleBulkBody([]byte(sb.String()), nil, 0, 0, false)
@@ -777,22 +896,11 @@ func runES(sum *vhlib.Summary, evs []levent, cases *[]string) {
 			earlier = map[string]bool{} // one bulk body
 		}
 		o := pickObs(byCid, e.Cid, wins[i])
-		ex := expect{cols: map[string]sv{"cid": {Kind: "s", S: e.Cid}, "message": {Kind: "s", S: e.Msg}}, exact: true}
-		for _, a := range e.Attrs {
-			ex.cols[a.K] = a.V
+		if o.found > 0 {
+			bulkStored[e.Cid] = o.st
 		}
-		if t, ok := e.Time.supported(); ok {
-			ex.carried = t
-			if e.Time.spelled() {
-				if _, cut, _ := e.Time.denoted(); cut != t {
-					ex.altTime, ex.altClass = cut, "ts_fractional_seconds_truncated"
-				}
-			}
-		} else if e.Time.Unit != "none" {
-			// a representation outside the documented ranges: only content is judged, the time goes to the model
-			ex.skipTime = true
-			sum.Count("es/unsupported_time_representation")
-		}
+		ex := esExpect(sum, "es", e)
+		countLits(sum, "es", e)
 		sum.Count("es/time_" + e.Time.Unit + "_" + e.Time.Form)
 		sum.Eval("es/"+e.Cid, true)
 		checkStored(sum, "es", e.Cid, ex, o, leakClass("es", earlier, ""), map[string]interface{}{"protocol": "es_bulk", "event": e})
@@ -803,6 +911,344 @@ func runES(sum *vhlib.Summary, evs []levent, cases *[]string) {
 		*cases = append(*cases, fmt.Sprintf("(LEs %s %s, %s, %s)", e.Time.coqWire(), coqEvent(attrs), coqS(ix), o.coq()))
 		if i%40 == 0 {
 			sum.Sample(map[string]interface{}{"protocol": "es_bulk", "event": e, "stored_ts": o.st.ts, "stored_columns": len(o.st.fields)})
+		}
+	}
+}
+
+// ---------- stream L: number literals ----------
+// Every way a JSON document spells a number, each under a key of its own (one value kind per column):
+//   order_id, span_start_ns, ctx.id (nested object): integers beyond 2^53 inside int64 (64-bit ids, nanosecond epochs)
+//   u64id: integers in [2^63, 2^64);  wide: integer literals beyond 64 bits (the store keeps the nearest float64)
+//   ratio: non-integral decimals: shortest digits of a float64 in fraction / exponent spelling, and long
+//          decimals (40 places) whose nearest float64 is that value;  mag: large and small exponents, denormals
+//   small, note: an ordinary integer and a string with characters that JSON writers escape
+// The expected stored value is the literal's own value: the exact integer inside 64 bits, else the nearest float64.
+var litOrderIDs = []int64{two53 + 1, two53 + 3, -(two53 + 1), math.MaxInt64, math.MinInt64, math.MinInt64 + 1, 1541815603606036481,
+	1<<62 + 1, 1714352490251123457, 999999999999999999, -1234567890123456789, two53*2 + 2}
+var litU64s = []uint64{1 << 63, 1<<63 + 1, math.MaxUint64, math.MaxUint64 - 1, 12345678901234567891, 1<<63 + 1025}
+var litRatios = []float64{0.1, 1.0 / 3, 3.141592653589793, 2.718281828459045, 0.30000000000000004, 123456.78901234567, -0.000123456789012345, 1714352490.2511234}
+var litMags = []string{"1e300", "1.7976931348623157e308", "2.2250738585072014e-308", "5e-324", "1E-300", "6.02214076e+23", "1e22", "1.5e-10",
+	"-1e300", "4.9406564584124654e-324", "1.0E+25", "-2.5e-7"}
+var litWides = []string{"18446744073709551616", "100000000000000000000001", "340282366920938463463374607431768211456", "-18446744073709551617",
+	"92233720368547758080", "-9223372036854775809"}
+var litNotes = []string{"plain", "a<b&c>d", "q\"uote\\back", "tab\there", "nl\nx", "é ü 漢", "sep x", "{\"j\":1}", "1e3", "007"}
+
+func litEvents(r *vhlib.Rng, n int) []levent {
+	var out []levent
+	bigInt := func(idx int, fixed []int64) int64 {
+		if idx >= 0 && idx < len(fixed) {
+			return fixed[idx]
+		}
+		v := int64(r.U64()>>1) | 1
+		if v < two53 {
+			v += 1 << 60
+		}
+		if r.Bool() {
+			v = -v
+		}
+		return v
+	}
+	for i := 0; i < n; i++ {
+		e := genEvent(r, i, "L")
+		e.Msg = fmt.Sprintf("number literals %d", i)
+		if len(e.Trace) == 0 {
+			e.Trace = []byte{0xaa, 2, 3, 4, 5, 6, 7, 8, 9, 10, 11, 12, 13, 14, byte(i >> 8), byte(i)}
+			e.Span = []byte{0xbb, 2, 3, 4, 5, 6, byte(i >> 8), byte(i)}
+		}
+		if i%5 == 4 {
+			e.Time = timeRep{Unit: "none"} // the document carries no time (the ns field of the OTLP protocols still does)
+		}
+		var at []kv
+		add := func(k string, v sv) { at = append(at, kv{k, v}) }
+		add("small", sv{Kind: "i", I: int64(r.Intn(1000))})
+		if i%2 == 0 || r.Chance(40) {
+			idx := -1
+			if i%2 == 0 {
+				idx = i / 2
+			}
+			add("order_id", sv{Kind: "i", I: bigInt(idx, litOrderIDs)})
+		}
+		if i%3 != 1 {
+			add("span_start_ns", sv{Kind: "i", I: int64(1577836800000000000+r.U64()%120000000000000000) | 1})
+		}
+		if i%4 == 1 || r.Chance(25) {
+			u := r.U64() | 1<<63 | 1
+			if i/4 < len(litU64s) && i%4 == 1 {
+				u = litU64s[i/4]
+			}
+			add("u64id", sv{Kind: "w", W: coqN(u)})
+		}
+		if i%3 == 0 || r.Chance(30) {
+			f := math.Float64frombits(uint64(1023+r.Range(-20, 20))<<52 | r.U64()&(1<<52-1) | 1)
+			if i/3 < len(litRatios) && i%3 == 0 {
+				f = litRatios[i/3]
+			} else if r.Bool() {
+				f = -f
+			}
+			lit := strconv.FormatFloat(f, 'f', -1, 64)
+			switch r.Intn(4) {
+			case 1:
+				lit = strconv.FormatFloat(f, 'e', -1, 64)
+			case 2:
+				lit = strings.Replace(strings.ToUpper(strconv.FormatFloat(f, 'e', -1, 64)), "E+", "E", 1)
+			case 3: // a long decimal: 40 places of the exact value
+				lit = strconv.FormatFloat(f, 'f', 40, 64)
+			}
+			if g, err := strconv.ParseFloat(lit, 64); err != nil || g != f {
+				lit = strconv.FormatFloat(f, 'f', -1, 64)
+			}
+			add("ratio", sv{Kind: "f", F: f, Lit: lit})
+		}
+		if i%4 == 2 || r.Chance(20) {
+			lit := vhlib.Pick(r, litMags)
+			if i/4 < len(litMags) && i%4 == 2 {
+				lit = litMags[i/4]
+			}
+			f, _ := strconv.ParseFloat(lit, 64)
+			add("mag", sv{Kind: "f", F: f, Lit: lit})
+		}
+		if i%6 == 3 || r.Chance(10) {
+			lit := vhlib.Pick(r, litWides)
+			if i/6 < len(litWides) && i%6 == 3 {
+				lit = litWides[i/6]
+			}
+			add("wide", sv{Kind: "w", W: lit})
+		}
+		if i%3 == 2 || r.Chance(20) {
+			add("ctx.id", sv{Kind: "i", I: bigInt(-1, nil)})
+			if r.Bool() {
+				add("ctx.shard", sv{Kind: "i", I: int64(r.Intn(64))})
+			}
+		}
+		if i%2 == 1 {
+			add("note", sv{Kind: "s", S: litNotes[(i/2)%len(litNotes)]})
+		}
+		// the order of the members varies
+		if r.Bool() {
+			for a, b := 0, len(at)-1; a < b; a, b = a+1, b-1 {
+				at[a], at[b] = at[b], at[a]
+			}
+		}
+		e.Attrs = at
+		out = append(out, e)
+	}
+	return out
+}
+
+// histogram of the number literals a protocol was given
+func countLits(sum *vhlib.Summary, proto string, e levent) {
+	if e.Stream != "L" {
+		return
+	}
+	for _, a := range e.Attrs {
+		switch {
+		case a.V.Kind == "i" && (a.V.I > two53 || a.V.I < -two53):
+			sum.Count(proto + "/literal_int_beyond_2^53")
+		case a.V.Kind == "w" && a.K == "u64id":
+			sum.Count(proto + "/literal_int_2^63..2^64")
+		case a.V.Kind == "w":
+			sum.Count(proto + "/literal_int_beyond_64_bits")
+		case a.V.Kind == "f" && a.K == "mag":
+			sum.Count(proto + "/literal_exponent")
+		case a.V.Kind == "f" && len(a.V.Lit) > 30:
+			sum.Count(proto + "/literal_long_decimal")
+		case a.V.Kind == "f":
+			sum.Count(proto + "/literal_decimal")
+		}
+	}
+}
+
+// the part of a stream-L event a protocol can express: typed protocols (OTLP) have int64 and double values;
+// HEC is given what stays inside int64 after its float64 detour (the detour itself is the known finding)
+func litFor(proto string, evs []levent) []levent {
+	out := make([]levent, len(evs))
+	for i, e := range evs {
+		var at []kv
+		for _, a := range e.Attrs {
+			if a.V.Kind == "w" && (proto != "hec" || a.K == "u64id") {
+				continue
+			}
+			at = append(at, a)
+		}
+		e.Attrs = at
+		out[i] = e
+	}
+	return out
+}
+
+// ---------- ES single-document requests ----------
+// PUT/POST /{index}/_doc[/{id}], /{index}/_create/{id}, /{index}/_update/{id} and the pre-7.x routes with a document
+// type all end in ProcessPutPostSingleDocRequest; the router hands over the user values indexName, _id, docType.
+type docVariant struct {
+	Route   string `json:"route"`
+	ID      string `json:"id,omitempty"`      // as the client means it
+	Escaped string `json:"escaped,omitempty"` // as it stands in the URL
+	DocType string `json:"doc_type,omitempty"`
+	Update  bool   `json:"update,omitempty"`
+	Refresh bool   `json:"refresh,omitempty"`
+}
+
+func docVariantOf(i int, cid string) docVariant {
+	switch i % 7 {
+	case 0:
+		return docVariant{Route: "POST /{index}/_doc"}
+	case 1:
+		return docVariant{Route: "PUT /{index}/_doc/{id}", ID: "d-" + cid, Escaped: "d-" + cid}
+	case 2:
+		return docVariant{Route: "PUT /{index}/_create/{id}", ID: "c-" + cid, Escaped: "c-" + cid}
+	case 3:
+		return docVariant{Route: "POST /{index}/_update/{id}", ID: "u-" + cid, Escaped: "u-" + cid, Update: true}
+	case 4:
+		return docVariant{Route: "PUT /{index}/{docType}/{id}", ID: "t-" + cid, Escaped: "t-" + cid, DocType: "logs"}
+	case 5:
+		return docVariant{Route: "POST /{index}/_doc/{id}?refresh=true", ID: "o/" + cid + " x", Escaped: "o%2F" + cid + "+x", Refresh: true}
+	}
+	return docVariant{Route: "POST /{index}/_doc/ (empty id)"}
+}
+
+func (v docVariant) coq(gen string) string {
+	route := "RDoc"
+	if strings.Contains(v.Route, "_create") {
+		route = "RCreate"
+	} else if v.Update {
+		route = "RUpdate"
+	}
+	id := "None"
+	if v.ID != "" {
+		id = "(Some " + coqS(v.ID) + ")"
+	} else if strings.Contains(v.Route, "empty id") {
+		id = "(Some [])"
+	}
+	return fmt.Sprintf("%s (mk_docq %s %s %s %s)", coqS(gen), route, id, coqS(v.DocType), vhlib.CoqBool(v.Refresh))
+}
+
+func looksLikeUUID(s string) bool {
+	if len(s) != 36 {
+		return false
+	}
+	for i := 0; i < len(s); i++ {
+		c := s[i]
+		if i == 8 || i == 13 || i == 18 || i == 23 {
+			if c != '-' {
+				return false
+			}
+		} else if !(c >= '0' && c <= '9' || c >= 'a' && c <= 'f') {
+			return false
+		}
+	}
+	return true
+}
+
+func runESDoc(sum *vhlib.Summary, evs []levent, cases *[]string, ix string) {
+	wins := make([]window, len(evs))
+	vars := make([]docVariant, len(evs))
+	respID := make([]string, len(evs))
+	for i, e := range evs {
+		v := docVariantOf(i, e.Cid)
+		vars[i] = v
+		ctx := mkctx([]byte(esDoc(e)), "application/json")
+		uri := "/elastic/" + ix + "/_doc"
+		if v.Refresh {
+			uri += "/" + v.Escaped + "?refresh=true"
+		}
+		ctx.Request.SetRequestURI(uri)
+		ctx.SetUserValue("indexName", ix)
+		if v.ID != "" {
+			ctx.SetUserValue("_id", v.Escaped)
+		} else if strings.Contains(v.Route, "empty id") {
+			ctx.SetUserValue("_id", "")
+		}
+		if v.DocType != "" {
+			ctx.SetUserValue("docType", v.DocType)
+		}
+		lo := nowMs() - 1
+		eswriter.ProcessPutPostSingleDocRequest(ctx, v.Update, 0)
+		hi := nowMs() + 1
+		wins[i] = window{lo, hi}
+		c := map[string]interface{}{"protocol": "es_doc", "request": v, "event": e, "body": esDoc(e)}
+		var resp map[string]interface{}
+		if ctx.Response.StatusCode() != 200 || json.Unmarshal(ctx.Response.Body(), &resp) != nil {
+			fail(sum, "es_doc_request_rejected", fmt.Sprintf("es_doc: %s for event %s answered %d %s", v.Route, e.Cid, ctx.Response.StatusCode(), ctx.Response.Body()), c)
+			continue
+		}
+		respID[i], _ = resp["_id"].(string)
+		want := "created"
+		if v.Update {
+			want = "updated"
+		}
+		if resp["result"] != want {
+			fail(sum, "es_doc_response_result_wrong", fmt.Sprintf("es_doc: %s for event %s answered result=%v, expected %s", v.Route, e.Cid, resp["result"], want), c)
+		}
+	}
+	flushLogs()
+	obs, err := search(ix)
+	if err != nil {
+		sum.HarnessError("es doc search: " + err.Error())
+		return
+	}
+	byCid := indexBy(obs, "cid")
+	autoIDs := map[string]string{}
+	for i, e := range evs {
+		v := vars[i]
+		o := pickObs(byCid, e.Cid, wins[i])
+		c := map[string]interface{}{"protocol": "es_doc", "request": v, "event": e, "body": esDoc(e)}
+		ex := esExpect(sum, "es_doc", e)
+		// the identifier: the one of the URL; a generated one (told to the client in the response) when the URL has none
+		gen := ""
+		wantID := v.ID
+		if v.ID != "" {
+			if respID[i] != v.ID {
+				fail(sum, "es_doc_response_id_wrong", fmt.Sprintf("es_doc: %s with id %q for event %s: the response names _id=%q", v.Route, v.ID, e.Cid, respID[i]), c)
+			}
+		} else {
+			gen = respID[i]
+			wantID = gen
+			if !looksLikeUUID(gen) {
+				fail(sum, "es_doc_generated_id_malformed", fmt.Sprintf("es_doc: %s for event %s: generated _id %q is not a UUID", v.Route, e.Cid, gen), c)
+			} else if other, dup := autoIDs[gen]; dup {
+				fail(sum, "es_doc_generated_id_reused", fmt.Sprintf("es_doc: events %s and %s were given the same generated _id %q", other, e.Cid, gen), c)
+			}
+			autoIDs[gen] = e.Cid
+		}
+		// "_id" and "_type" are ES metadata: the record reader leaves them out of the records it returns
+		// (recordreader.go: !esQuery), so a match-all search does not show them; if it does, they must be right
+		for _, m := range []struct{ k, want string }{{"_id", wantID}, {"_type", v.DocType}} {
+			if got, ok := o.st.fields[m.k]; ok {
+				if m.want == "" || got.Kind != "s" || got.S != m.want {
+					fail(sum, "es_doc"+m.k+"_altered", fmt.Sprintf("es_doc: %s for event %s: %s must be %q, stored as %v", v.Route, e.Cid, m.k, m.want, got), c)
+				}
+				delete(o.st.fields, m.k)
+				sum.Count("es_doc/" + m.k + "_visible")
+			}
+		}
+		countLits(sum, "es_doc", e)
+		sum.Count("es_doc/route " + v.Route)
+		sum.Count("es_doc/stream_" + e.Stream)
+		sum.Count("es_doc/time_" + e.Time.Unit + "_" + e.Time.Form)
+		sum.Eval("es_doc/"+e.Cid, true)
+		checkStored(sum, "es_doc", e.Cid, ex, o, nil, c)
+		// the same event through the other ES protocol: stored identically (content and time)
+		if b, ok := bulkStored[e.Cid]; ok && o.found > 0 {
+			var diff []string
+			for _, a := range append([]kv{{"message", sv{}}}, e.Attrs...) {
+				bv, bok := b.fields[a.K]
+				dv, dok := o.st.fields[a.K]
+				if bok != dok || bok && !bv.eq(dv) {
+					diff = append(diff, fmt.Sprintf("%s: bulk %v / doc %v (sent %s)", a.K, bv, dv, a.V.json()))
+				}
+			}
+			if e.Time.Unit != "none" && b.ts != o.st.ts {
+				diff = append(diff, fmt.Sprintf("timestamp: bulk %d / doc %d", b.ts, o.st.ts))
+			}
+			if len(diff) > 0 {
+				fail(sum, "es_doc_stored_differently_from_es_bulk", fmt.Sprintf("event %s sent as the same document through _bulk and through %s is stored differently: %s", e.Cid, v.Route, strings.Join(diff, "; ")), c)
+			}
+			sum.Count("es_doc/compared_with_es_bulk")
+		}
+		attrs := append([]kv{{"cid", sv{Kind: "s", S: e.Cid}}, {"message", sv{Kind: "s", S: e.Msg}}}, e.Attrs...)
+		*cases = append(*cases, fmt.Sprintf("(LEsDoc %s %s %s, %s, %s)", v.coq(gen), e.Time.coqWire(), coqEvent(attrs), coqS(ix), o.coq()))
+		if i%40 == 5 {
+			sum.Sample(map[string]interface{}{"protocol": "es_doc", "request": v, "event": e, "stored_ts": o.st.ts, "stored_columns": len(o.st.fields)})
 		}
 	}
 }
@@ -946,8 +1392,7 @@ func runESRoutes(sum *vhlib.Summary, r *vhlib.Rng, cases *[]string) {
 }
 
 // ---------- Splunk HEC ----------
-func runHEC(sum *vhlib.Summary, evs []levent, cases *[]string) {
-	const ix = "c16hec"
+func runHEC(sum *vhlib.Summary, evs []levent, cases *[]string, ix string) {
 	wins := make([]window, len(evs))
 	for b := 0; b < len(evs); b += batch {
 		var sb strings.Builder
@@ -999,7 +1444,7 @@ func runHEC(sum *vhlib.Summary, evs []levent, cases *[]string) {
 		ex := expect{cols: map[string]sv{"event.cid": {Kind: "s", S: e.Cid}, "event.message": {Kind: "s", S: e.Msg}, "index": {Kind: "s", S: ix}},
 			exact: true, timeKnown: "hec_time_ignored"}
 		for _, a := range e.Attrs {
-			ex.cols["event."+a.K] = a.V
+			ex.cols["event."+a.K] = a.V.expected()
 		}
 		var metaFs []kv
 		for j, rk := range e.Res {
@@ -1025,6 +1470,7 @@ func runHEC(sum *vhlib.Summary, evs []levent, cases *[]string) {
 		}
 		sum.Eval("hec/"+e.Cid, true)
 		sum.Count("hec/stream_" + e.Stream)
+		countLits(sum, "hec", e)
 		checkStored(sum, "hec", e.Cid, ex, o, leakClass("hec", earlier, ""), map[string]interface{}{"protocol": "splunk_hec", "event": e})
 		for k := range ex.cols {
 			earlier[k] = true
@@ -1189,6 +1635,7 @@ func (pr planRes) pb() *resourcepb.Resource {
 // ---------- OTLP logs ----------
 const otlpDefaultIndex = "otel-logs"
 const otlpIdKindsIndex = "otel-logs-idkinds"
+const otlpLitIndex = "otel-logs-lit"
 
 // text of an attribute value as an identifier (what a reader of the attribute would print)
 func idText(v sv) string {
@@ -1447,6 +1894,7 @@ func runOTLPLogs(sum *vhlib.Summary, r *vhlib.Rng, evs []levent, cases *[]string
 					}
 					sum.Eval("otlp_log/"+e.Cid, true)
 					sum.Count("otlp_log/stream_" + e.Stream)
+					countLits(sum, "otlp_log", e)
 					sum.Count("otlp_log/request_" + pl.Shape)
 					c := map[string]interface{}{"protocol": "otlp_logs", "event": e, "request": pl}
 					// scope name / version of an earlier scope showing up on a record of a bare or absent scope
@@ -1582,6 +2030,7 @@ func runSpans(sum *vhlib.Summary, r *vhlib.Rng, evs []levent, cases *[]string) {
 					}
 					sum.Eval("otlp_span/"+e.Cid, true)
 					sum.Count("otlp_span/events")
+					countLits(sum, "otlp_span", e)
 					sum.Count("otlp_span/request_" + pl.Shape)
 					c := map[string]interface{}{"protocol": "otlp_traces", "event": e, "own_service": service, "request": pl}
 					if got, ok := o.st.fields["service"]; ok && o.found > 0 && got.S != service {
@@ -2374,7 +2823,7 @@ func main() {
 	sum := vhlib.NewSummary("one case = (logical event or datapoint, protocol) pushed through the real handler, flushed and read back by a match-all search / the PromQL query path, " +
 		"or one integer given to every real reader of a time value (boundary pool around each unit threshold +-2, 0, negatives, 10/13/16/19 digit values, random 1-19 digit values); " +
 		"events: time in one of {none, s, ms, ns} x {number, string}, 1-5 attributes (strings, ints incl. +-(2^53-1) and beyond, non-integral floats, bools), resource attributes, ids; " +
-		"stream A avoids the inputs of the known findings, stream B concentrates on them; stream I (OTLP logs): each of trace id / span id carried as {own field, attribute only, both with different values, both the same, neither}, all combinations, attribute values as hex strings and (own index) as integers / booleans; distinct by (protocol, case id) resp. integer value; all are non-trivial except the integer 0")
+		"stream A avoids the inputs of the known findings, stream B concentrates on them; stream I (OTLP logs): each of trace id / span id carried as {own field, attribute only, both with different values, both the same, neither}, all combinations, attribute values as hex strings and (own index) as integers / booleans; stream L (ES bulk, ES single-document, HEC, OTLP logs, OTLP traces as far as expressible): number literals under keys of their own: integers beyond 2^53 inside int64 (ids, nanosecond epochs, also inside a nested object), in [2^63, 2^64), beyond 64 bits, non-integral decimals as shortest digits in fraction / exponent spelling and as 40-place decimals, large / small exponents and denormals, strings with escaped characters; ES single-document requests: every event of the ES bulk streams and of stream L again, one request each, routes POST _doc, PUT _doc/{id}, PUT _create/{id}, POST _update/{id}, PUT {docType}/{id}, POST _doc/{escaped id}?refresh=true, POST _doc/ with an empty id, in turn; distinct by (protocol, case id) resp. integer value; all are non-trivial except the integer 0")
 	r := vhlib.NewRng(cfg.Seed)
 	dir := filepath.Join(cfg.Out, "data")
 	_ = os.MkdirAll(dir, 0o755)
@@ -2408,10 +2857,24 @@ func main() {
 	}
 	nEvs := spellingEvents(r.Fork(), nN)
 	esEvs := append(append(append([]levent{}, evs...), nEvs...), boundaryEvents()...)
-	runES(sum, esEvs, &logCases)
+	runES(sum, esEvs, &logCases, "c16es")
 	runESRoutes(sum, r.Fork(), &logCases)
-	runHEC(sum, append(append([]levent{}, evs...), nEvs...), &logCases)
+	runHEC(sum, append(append([]levent{}, evs...), nEvs...), &logCases, "c16hec")
 	writeSharded(cfg, sum, "cases_logs", "list (lcase * list N * lobs)", "check_logs cases", logCases, 120)
+	// stream L (own generator stream): number literals in every spelling, through every protocol that can express them;
+	// and the ES single-document protocol: every event of the ES bulk run again, one request per document, all routes
+	nL := 56
+	if cfg.Thorough() {
+		nL = 560
+	}
+	rL := vhlib.NewRng(cfg.Seed ^ 0x6c16c16c16c16c16)
+	lEvs := litEvents(rL.Fork(), nL)
+	var litCases, docCases []string
+	runES(sum, lEvs, &litCases, "c16lit")
+	runHEC(sum, litFor("hec", lEvs), &litCases, "c16heclit")
+	writeSharded(cfg, sum, "cases_logs_lit", "list (lcase * list N * lobs)", "check_logs cases", litCases, 120)
+	runESDoc(sum, append(append([]levent{}, esEvs...), lEvs...), &docCases, "c16doc")
+	writeSharded(cfg, sum, "cases_es_doc", "list (lcase * list N * lobs)", "check_logs cases", docCases, 120)
 	runOTLPLogs(sum, r.Fork(), evs, &logReqCases, otlpDefaultIndex)
 	// stream I (own generator stream, the other streams stay as they were): the two trace-context identifiers carried differently
 	idRounds := 3
@@ -2426,6 +2889,11 @@ func main() {
 	writeSharded(cfg, sum, "cases_otlp_logs_idkinds", "list (list res_logs * list lobs)", "check_logs_reqs (s2b \""+otlpIdKindsIndex+"\") cases", idKindCases, 12)
 	runSpans(sum, r.Fork(), evs, &traceReqCases)
 	writeSharded(cfg, sum, "cases_otlp_traces", "list (list res_spans * list lobs)", "check_trace_reqs (s2b \"traces\") cases", traceReqCases, 12)
+	var litLogReqCases, litTraceReqCases []string
+	runOTLPLogs(sum, rL.Fork(), litFor("otlp", lEvs), &litLogReqCases, otlpLitIndex)
+	writeSharded(cfg, sum, "cases_otlp_logs_lit", "list (list res_logs * list lobs)", "check_logs_reqs (s2b \""+otlpLitIndex+"\") cases", litLogReqCases, 12)
+	runSpans(sum, rL.Fork(), litFor("otlp", lEvs), &litTraceReqCases)
+	writeSharded(cfg, sum, "cases_otlp_traces_lit", "list (list res_spans * list lobs)", "check_trace_reqs (s2b \"traces\") cases", litTraceReqCases, 12)
 
 	var streams []lokiStream
 	rl, rlb := r.Fork(), r.Fork()
